@@ -567,10 +567,14 @@ def source_of(so, rel):
         for tool in ("llvm-addr2line", "addr2line"):
             if shutil.which(tool) is None:
                 continue
-            p = common.run([tool, "-f", "-e", so, "0x%x" % rel], timeout=120)
-            t = p.stdout.split()
-            fn = t[0] if t else "?"
-            loc = t[1] if len(t) > 1 else "?"
+            p = common.run([tool, "-f", "-i", "-e", so, "0x%x" % rel], timeout=120)
+            ls = [l.strip() for l in p.stdout.splitlines() if l.strip()]
+            frames = [(ls[i], ls[i + 1].split()[0]) for i in range(0, len(ls) - 1, 2)]      # innermost inlined frame first
+            if not frames:
+                continue
+            # innermost frame inside the library's source tree (not the compiler's intrinsic headers: smmintrin.h:401 ...)
+            own = [f for f in frames if f[1].startswith(common.REPO + "/")]
+            fn, loc = (own or frames)[0]
             if not loc.startswith("?"):
                 break
         loc = re.sub(r"^.*?/lib/", "lib/", loc)
